@@ -7,7 +7,7 @@ RULE = ("seeded random validated models and configurators x objective / priority
         "unknown ids) x solver callables: a recorder answering a vector with a distinct value per column (so any permutation "
         "shows), an exact brute-force argmax over the in-box integer points, one answering None, one raising; the polyhedron "
         "and objective vectors handed to the solver and the dictionaries handed back (solve with/without virtual variables, "
-        "select with/without only_leafs) compared with the model; oracle: the statement's clauses on the real code; "
+        "select with/without only_leafs, 1-3 requests per call, each request's objective compared with the one it gets when asked alone) compared with the model; oracle: the statement's clauses on the real code; "
         "non-trivial = the model has a generated-id sub-proposition or the dictionary names a sub-proposition / unknown id")
 ASSUMPTIONS = ["the built-in beta solver is never called (it does not terminate on some integer models); every check supplies its own solver",
                "validated, reference-free models without pre-fixed compounds"]
@@ -101,6 +101,18 @@ def do_case(ctx, inp):
         grows, gvars = poly_snap(gpoly)
         if rows_json(grows) != rows_json(rows) or gvars != avars:
             ctx.fail("solver-did-not-receive-the-configurator-polyhedron", {"got_vars": gvars, "want_vars": avars}); return
+        if len(gobjs) != len(objectives):
+            ctx.fail("not-one-objective-vector-per-request", {"requests": len(objectives), "vectors": len(gobjs)}); return
+        if len(objectives) > 1:
+            # one objective vector per request: request k of a multi-request call gets the vector it gets when asked alone
+            for k, d in enumerate(objectives):
+                rec1 = Recorder(script)
+                list(build(a).select(d, solver=rec1, only_leafs=ol))
+                alone = [int(x) for x in rec1.calls[0][1][0]]
+                if [int(x) for x in gobjs[k]] != alone:
+                    ctx.fail("objective-of-a-request-depends-on-the-other-requests",
+                             {"requests": objectives, "k": k, "ids": ids, "in_multi_request_call": [int(x) for x in gobjs[k]], "asked_alone": alone}); return
+            ctx.tags["multi-request-select"] += 1
         for k, item in enumerate(res):
             raw = script(gpoly, gobjs)[k][0]
             got = item if ol else item[0]
@@ -124,7 +136,7 @@ def run(ctx):
             a, o, t = gen_valid(rng, ctx.quick, wide_p=0.0)
             if not free01(t): continue
         names = sorted(leaves_of(t)) + compound_ids(t) + ["unknown-id"]
-        objectives = [{x: rng.randint(-4, 4) for x in rng.sample(names, rng.randint(0, min(4, len(names))))} for _ in range(rng.randint(1, 2))]
+        objectives = [{x: rng.randint(-4, 4) for x in rng.sample(names, rng.randint(0, min(4, len(names))))} for _ in range(rng.randint(1, 3))]
         do_case(ctx, {"ast": a, "objectives": objectives, "mode": rng.choice(["recorder", "recorder", "exact", "none", "raise"]),
                       "include_virtual": rng.random() < 0.5, "only_leafs": rng.random() < 0.5,
                       "via": rng.choice(["solve", "select"])})
